@@ -369,6 +369,30 @@ func Families(b Bounds) []*Family {
 			Texts: dedupTexts(txt), Keys: []string{"", "a", "ab", "aab"}})
 	}
 
+	// long covered runs: one or two short patterns, texts in which a covered region is 1..N runes
+	// long (output written in fixed-size pieces must be right at every length, in particular at
+	// multiples of the piece size)
+	{
+		maxRun := 70
+		if b.WideK > 5 {
+			maxRun = 140
+		}
+		pats := []string{"a", "aa", "ab", "é", "世"}
+		sets := [][]int{{0}, {1}, {0, 1}, {1, 2}, {3}, {4}, {0, 3}}
+		var txt []Text
+		for n := 1; n <= maxRun; n++ {
+			for _, unit := range []string{"a", "é", "世", "ab"} {
+				run := strings.Repeat(unit, n)
+				txt = append(txt, mkText(run), mkText("x"+run+"x"), mkText(run+"x"+run))
+			}
+		}
+		fs = append(fs, &Family{
+			Name: "long-runs",
+			Desc: fmt.Sprintf("patterns from {a, aa, ab, é, 世} in 7 sets; texts u^n, x·u^n·x, u^n·x·u^n for u in {a, é, 世, ab} and every n = 1..%d", maxRun),
+			Pats: pats, Sets: sets, Hists: []History{HAll},
+			Texts: dedupTexts(txt), Keys: []string{"", "a"}})
+	}
+
 	w := common.AllStrings(AlphaWidths, b.WPatLen)
 	wsets := subsets(len(w), 1, b.WSet)
 	fs = append(fs, &Family{
@@ -810,7 +834,7 @@ func (f *Family) Run(r *common.Run, famIdx int, global *Collector, tot *Totals, 
 	var ev, nt, tries int64
 	start := time.Now()
 	r.Parallel(n, func(i int) {
-		sh := &Shard{Col: NewCollector(), Counts: make([]int, 64), Cov: make([]bool, 256), Regs: make([]Region, 0, 16)}
+		sh := &Shard{Col: NewCollector(), Counts: make([]int, 64), Cov: make([]bool, 4096), Regs: make([]Region, 0, 16)}
 		sh.Col.fam, sh.Col.chunk = famIdx, i
 		cols[i] = sh.Col
 		register(sh)
